@@ -772,9 +772,13 @@ func (service *serviceType) handleBuildRequest(id uint32, request map[string]int
 			})
 		}
 
-		// Keep the build alive until "dispose" has been called
+		// Keep the build alive until "dispose" has been called. Hold the mutex
+		// because a "rebuild", "cancel" or "dispose" request for this key may
+		// already be reading these fields on the goroutine that handles packets.
+		activeBuild.mutex.Lock()
 		activeBuild.disposeWaitGroup.Add(1)
 		activeBuild.ctx = ctx
+		activeBuild.mutex.Unlock()
 		shouldDestroyActiveBuild = false
 
 		return encodePacket(packet{
